@@ -661,7 +661,7 @@ class Interp:
         return pol == 'nonnegative'
 
     def filter_text_is_foreign(self, text):
-        cache = self.__dict__.setdefault('_foreign_filter_text', {})
+        cache = self.repo.__dict__.setdefault('_foreign_filter_text', {})       # a function of the sources only
         if text not in cache:
             head = text.lower()[:12]
             skip = set()
@@ -1055,6 +1055,8 @@ class Interp:
         raise Unsupported('not a number: %r' % (v,))
 
     def binop(self, op, a, b):
+        if op in ('|', '&', '^') and isinstance(a, bool) and isinstance(b, bool):
+            return {'|': a or b, '&': a and b, '^': a != b}[op]     # also reached element by element for arrays
         if op == '@':
             return self.native['numpy.dot'](self, None, [a, b], {}, None)
         if op == '|' and isinstance(a, DictV) and isinstance(b, DictV):
@@ -2058,6 +2060,33 @@ class Frame:
         if isinstance(target, ast.Subscript):
             base = self.ev(target.value)
             idx = self.ev(target.slice)
+            if isinstance(base, ListV) and isinstance(idx, ListV) and getattr(idx, 'is_array', False) and \
+                    idx.items and all(isinstance(x, bool) for x in idx.items):
+                # a[mask] = value: the positions where the boolean array is True along the first axis
+                if len(idx) != len(base):
+                    raise _RaisedExc(Raised('IndexError', target))
+                pos = [k_ for k_, keep in enumerate(idx.items) if keep]
+                if isinstance(v, ListV):
+                    if len(v) != len(pos):
+                        raise _RaisedExc(Raised('ValueError', target))
+                    vals = list(v.items)
+                elif isinstance(v, (Rat, SumV)):
+                    vals = [v] * len(pos)
+                else:
+                    raise Unsupported('mask store of %r' % (v,), target, self.module.relpath)
+                if pos:
+                    self.int_store(base, vals, target)
+                for p_, x_ in zip(pos, vals):
+                    base.items[p_] = x_
+                sync_reshape(base)
+                return
+            if isinstance(base, Elem) and isinstance(idx, Elem) and isinstance(idx.r, bool) and isinstance(v, Rat) \
+                    and type(base) is Elem:
+                # the same on a vector of unknown length when the mask is decided for every element alike
+                if idx.r:
+                    self.int_store(base, v, target)
+                    base.r = v
+                return
             if isinstance(base, ListV) and isinstance(idx, ListV):
                 cur = base
                 for ix in idx.items[:-1]:
@@ -2642,6 +2671,13 @@ class Frame:
                 if a_ in self.I.data_kind:
                     self.I.data_kind[name] = self.I.data_kind[a_]
             return self.I.D.sym(name)
+        if isinstance(base, Elem) and isinstance(idx, Elem) and isinstance(idx.r, bool) and type(base) is Elem:
+            # a mask that is decided for every element alike: all of the vector (a copy) or none of it
+            if idx.r:
+                return Elem(base.r)
+            r_ = ListV([])
+            r_.is_array = True
+            return r_
         if isinstance(base, Elem):
             raise Unsupported('indexing into a vector of unknown length', n, self.module.relpath)
         if isinstance(base, Rat) and isinstance(idx, Rat):
